@@ -1037,25 +1037,10 @@ class Blob(ShaFile):
         chunks = self.chunked
         if not chunks:
             return []
-        if len(chunks) == 1:
-            result: list[bytes] = chunks[0].splitlines(True)
-            return result
-        remaining = None
-        ret = []
-        for chunk in chunks:
-            lines = chunk.splitlines(True)
-            if len(lines) > 1:
-                ret.append((remaining or b"") + lines[0])
-                ret.extend(lines[1:-1])
-                remaining = lines[-1]
-            elif len(lines) == 1:
-                if remaining is None:
-                    remaining = lines.pop()
-                else:
-                    remaining += lines.pop()
-        if remaining is not None:
-            ret.append(remaining)
-        return ret
+        # (the lines do not depend on how the content happens to be chunked:
+        # a chunk may end with a complete line, or between "\r" and "\n")
+        result: list[bytes] = b"".join(chunks).splitlines(True)
+        return result
 
 
 def _parse_message(
